@@ -51,6 +51,9 @@ func (f *Frame) call(ins ssa.Instruction, c *ssa.CallCommon) *SVal {
 		args = append(args, f.val(a))
 	}
 	callee := c.StaticCallee()
+	if callee != nil && f.isInit && callee.Name() == "init" && callee.Synthetic != "" {
+		return nil // other packages' initializers: evaluated on demand
+	}
 	if callee == nil {
 		fv := f.val(c.Value)
 		if fv.Clo != nil {
